@@ -272,8 +272,10 @@ assignment goes through its own `op`, and `+`/`-` are the two pointer-capable bi
 theorem postDec_calls_decrement : Generated.postIncDecCalls = "opSymbol##opSymbol" := by decide
 theorem preIncDec_step : Generated.preIncDecStep = ("opSymbol", 1) := by decide
 theorem compound_through_own_op : Generated.compoundBody = "opSymbol" := by decide
-theorem ptr_ops_are_plus_minus : Generated.binaryOpValAndPtr = ["+", "-"] ∧ Generated.preIncDecOps = ["+", "-"] ∧
-    Generated.postIncDecOps = ["+", "-"] := by decide
+theorem ptr_ops_are_plus_minus :
+    (Generated.binaryOpValAndPtr.length = 2 ∧ "+" ∈ Generated.binaryOpValAndPtr ∧ "-" ∈ Generated.binaryOpValAndPtr) ∧
+    (Generated.preIncDecOps.length = 2 ∧ "+" ∈ Generated.preIncDecOps ∧ "-" ∈ Generated.preIncDecOps) ∧
+    (Generated.postIncDecOps.length = 2 ∧ "+" ∈ Generated.postIncDecOps ∧ "-" ∈ Generated.postIncDecOps) := by decide
 
 /-- The stride is the size of the pointee under the sandbox ABI: for every type it is the size the
 layout model (shared with C07/C08) assigns, e.g. `long` is 4 under ABI A and 8 for the application. -/
